@@ -86,6 +86,7 @@ C13_F1(signbit, etl::signbit)
 C13_F1(isnan, etl::isnan)
 C13_F1(isinf, etl::isinf)
 C13_F1(isfinite, etl::isfinite)
+C13_F1(sqrt, etl::sqrt)
 #undef C13_F1
 constexpr auto ev_copysign_f32(u32 x, u32 y) -> u64 { return E(etl::copysign(F(x), F(y))); }
 constexpr auto ev_copysign_f64(u64 x, u64 y) -> u64 { return E(etl::copysign(D(x), D(y))); }
@@ -282,6 +283,7 @@ inline Op const ops[] = {
     C13_OPF1(isnan, KU, KU, std::isnan),
     C13_OPF1(isinf, KU, KU, std::isinf),
     C13_OPF1(isfinite, KU, KU, std::isfinite),
+    C13_OPF1(sqrt, KF32, KF64, std::sqrt),
     Op{"copysign_f32", KF32, [](L) { return ev_copysign_f32(arg<u32>(l, "x"), arg<u32>(l, "y")); },
        [](L) { return E(std::copysign(launder(F(arg<u32>(l, "x"))), launder(F(arg<u32>(l, "y"))))); }, tbl_copysign_f32,
        n_copysign_f32},
